@@ -10,7 +10,10 @@ RELUTIL = {"pkg": "./pkg/release/util", "files": ["pkg/release/util/h_c08_part.g
 
 REPOPKG = {"pkg": "./pkg/repo", "files": ["pkg/repo/h_c18_index.go"]}
 
+ACTION = {"pkg": "./pkg/action", "files": ["pkg/action/h_common.go", "pkg/action/h_smoke.go"]}
+
 CHECKS = {
+    "ACTIONSMOKE": {"runs": [dict(ACTION, entries=["HSmoke"])], "bounds": {}, "assumptions": []},
     "C18": {
         "runs": [dict(REPOPKG, entries=["H18Index"], bounds_quick={"entries": 2, "shapes": 5, "maxdigit": 3}, bounds_thorough={"entries": 3, "shapes": 5, "maxdigit": 9})],
         "bounds": {}, "assumptions": [],
